@@ -305,6 +305,9 @@ def run(chk, ctx):
     signal_tables(chk, P)
     condition_rules(chk, P)
     scoping_rules(chk, P)
+    # which header column a signal is bound to (by its own name / name + "_out"): decides which columns end up unbound
+    from . import c06
+    c06.run(chk.only(("build_indices",)), ctx)
     for lem in ("SIGIDX", "ROWWIDTH", "INPUTIDX", "RESIDUAL"):
         L.need(lem)
     chk.not_decided = []
